@@ -21,8 +21,16 @@ use crate::{common::*, syncmsg::honest_fp_tok, world::{make_entry, NOW, PEER}};
 
 #[derive(Clone, Debug, Serialize, Deserialize)]
 pub enum Op {
-    /// which of the two nodes sync the document
-    Setup { sync_a: bool, sync_b: bool },
+    /// which of the two nodes sync the document; `early_*`: the node was asked to sync the document
+    /// before it existed there (the request failed)
+    Setup {
+        sync_a: bool,
+        sync_b: bool,
+        #[serde(default)]
+        early_a: bool,
+        #[serde(default)]
+        early_b: bool,
+    },
     /// pick the `k % enabled`-th enabled scheduler action
     Choose { k: usize },
     /// a concrete action (corpus): `dial n report`, `report n v`, `deliver n`, `lose n`, `cc n i`, `ca n sid`, `cd n`
@@ -137,7 +145,7 @@ impl Property for C11 {
     }
     fn corpus(&self) -> Vec<(String, Vec<Op>)> {
         let acts = |v: &[&str]| -> Vec<Op> {
-            let mut o = vec![Op::Setup { sync_a: true, sync_b: true }];
+            let mut o = vec![Op::Setup { sync_a: true, sync_b: true, early_a: false, early_b: false }];
             o.extend(v.iter().map(|a| Op::Act { a: a.to_string() }));
             o
         };
@@ -152,15 +160,21 @@ impl Property for C11 {
             ("redial-while-accept-task-runs".into(), acts(&["dial 0 0", "deliver 0", "cc 0 0", "dial 0 0", "deliver 0", "ca 1 0", "dial 1 0", "deliver 1", "cc 0 0", "cd 1", "cc 1 0", "ca 0 1"])),
             ("redial-while-accept-task-runs-b".into(), acts(&["dial 1 0", "deliver 1", "cc 1 0", "dial 1 0", "deliver 1", "ca 0 0", "dial 0 0", "deliver 0", "cc 1 0", "cd 0", "cc 0 0", "ca 1 1"])),
             ("refused-report-follow-up".into(), acts(&["dial 0 0", "deliver 0", "dial 0 1", "dial 0 1", "cc 0 0", "ca 1 0", "deliver 0", "cc 0 0", "ca 1 1"])),
+            // the node that does not sync was asked to sync the document before it existed there
+            ("failed-start-sync-is-not-syncing".into(), {
+                let mut o = vec![Op::Setup { sync_a: true, sync_b: false, early_a: true, early_b: true }];
+                o.extend(["dial 0 0", "deliver 0", "cd 1", "cc 0 0", "dial 1 0"].iter().map(|a| Op::Act { a: a.to_string() }));
+                o
+            }),
             ("not-syncing-is-not-found".into(), {
-                let mut o = vec![Op::Setup { sync_a: true, sync_b: false }];
+                let mut o = vec![Op::Setup { sync_a: true, sync_b: false, early_a: false, early_b: false }];
                 o.extend(["dial 0 0", "deliver 0", "cd 1", "cc 0 0", "dial 1 0"].iter().map(|a| Op::Act { a: a.to_string() }));
                 o
             }),
         ]
     }
     fn generate(&self, rng: &mut Rng, _i: usize, thorough: bool) -> Vec<Op> {
-        let mut ops = vec![Op::Setup { sync_a: !rng.chance(1, 10), sync_b: !rng.chance(1, 10) }];
+        let mut ops = vec![Op::Setup { sync_a: !rng.chance(1, 10), sync_b: !rng.chance(1, 10), early_a: rng.chance(1, 4), early_b: rng.chance(1, 4) }];
         for _ in 0..rng.range(4, if thorough { 80 } else { 40 }) {
             ops.push(Op::Choose { k: rng.below(1 << 20) });
         }
@@ -177,9 +191,9 @@ impl Property for C11 {
         secret[..4].copy_from_slice(&w.doc_counter.to_be_bytes());
         let ns = NamespaceSecret::from_bytes(&secret);
         let nsid = ns.id();
-        let (sync_a, sync_b) = match ops.first() {
-            Some(Op::Setup { sync_a, sync_b }) => (*sync_a, *sync_b),
-            _ => (true, true),
+        let (sync_a, sync_b, early) = match ops.first() {
+            Some(Op::Setup { sync_a, sync_b, early_a, early_b }) => (*sync_a, *sync_b, [*early_a, *early_b]),
+            _ => (true, true, [false, false]),
         };
         let syncing = [sync_a, sync_b];
         let mut lines = vec![Line::model(format!("cnew 1 1 {} {}", sync_a as u8, sync_b as u8), "ok")];
@@ -189,6 +203,11 @@ impl Property for C11 {
         let res: anyhow::Result<()> = rt.block_on(async {
             // the document exists on both nodes; the syncing ones start syncing it
             for n in 0..2 {
+                if early[n] {
+                    // the document is not there yet: the request to sync it has to fail, and must not leave
+                    // the node believing that it syncs the document
+                    anyhow::ensure!(nodes[n].coord.start_sync(nsid).await.is_err(), "start_sync of an unknown document succeeded");
+                }
                 nodes[n]._sync.import_namespace(iroh_docs::sync::Capability::Write(ns.clone())).await?;
                 if syncing[n] {
                     nodes[n].coord.start_sync(nsid).await?;
@@ -237,6 +256,7 @@ impl Property for C11 {
                 let mk_finished = |peer: iroh::PublicKey| SyncFinished { namespace: nsid, peer, outcome: SyncOutcome::default(), timings: Default::default() };
                 // for a report: (heads as the specification reads them, is it news by construction)
                 let mut report_spec: Option<(String, bool)> = None;
+                let mut not_found_spec: Option<String> = None;
                 let resync_before = nodes[n].coord.snapshot(nsid, ids[other]).map(|s| s.1).unwrap_or(false);
                 match t[0] {
                     "report" => {
@@ -260,7 +280,15 @@ impl Property for C11 {
                     }
                     "deliver" => {
                         if let Some(i) = net.ctasks[n].iter().position(|c| c.0 == CPhase::Requesting) {
-                            match nodes[other].coord.accept_sync_request(nsid, ids[n]) {
+                            let outcome = nodes[other].coord.accept_sync_request(nsid, ids[n]);
+                            if !syncing[other] {
+                                not_found_spec = Some(match &outcome {
+                                    AcceptOutcome::Reject(AbortReason::NotFound) => "not-syncing-is-declined-as-not-found".to_string(),
+                                    AcceptOutcome::Reject(r) => format!("not-syncing-declined-as-{r:?}"),
+                                    AcceptOutcome::Allow => "not-syncing-but-accepted".to_string(),
+                                });
+                            }
+                            match outcome {
                                 AcceptOutcome::Allow => {
                                     covered[other] = true;
                                     let sid = net.sessions;
@@ -393,6 +421,9 @@ impl Property for C11 {
                             follow_up_spec = Some(format!("refused-report-never-followed-up:node{m}"));
                         }
                     }
+                }
+                if let Some(v) = not_found_spec {
+                    lines.push(Line::oracle("sconst not-syncing-is-declined-as-not-found", v));
                 }
                 lines.push(Line::oracle("sconst one-follow-up-per-refused-report", follow_up_spec.unwrap_or_else(|| "one-follow-up-per-refused-report".into())));
             }
